@@ -21,7 +21,7 @@ ANCHORS = [("leuvenmapmatching/matcher/base.py", "BaseMatcher._match_non_emittin
            ("leuvenmapmatching/matcher/base.py", "LatticeColumn.upsert"),
            ("leuvenmapmatching/matcher/base.py", "BaseMatching.update")]
 FLOORS = {"pairs_judged": 1800, "on_run_uses_nonemitting": 500, "results_differ": 300, "both_complete": 800, "on_run_longer": 50,
-          "family:simple": 300, "family:simple_nodes": 300, "family:distance": 300, "debug_level_pairs": 400, "linked_edge_pairs": 500}
+          "family:simple": 300, "family:simple_nodes": 300, "family:distance": 300, "debug_level_pairs": 400, "linked_edge_pairs": 500, "out_and_back_cases": 800}
 ASSUMPTIONS = ["both runs are instantiated from one explicit configuration dict; only `non_emitting` differs",
                "best probability compared at 1e-9*max(1,|x|)"]
 
@@ -41,6 +41,17 @@ def gen_case(rng, i, tier):
         case["linked_class"] = True
         return case
     case = mcase.gen_mcase(rng, ne=False, width=False, agb=False, tighten_p=0.3, sparse_p=0.55, max_obs=9)
+    if i % 10 in (5, 9):
+        # out and back over skipped nodes, observations on the nodes (see gen.gen_out_and_back_case)
+        m, tr = gen.gen_out_and_back_case(rng, labels=("int", "str"))
+        case["map"], case["trace"] = m, tr
+        case["cfg"].update(max_dist=None, max_dist_init=None, min_prob_norm=None)
+        case["cfg"]["obs_noise"] = rng.choice([1.0, 0.7, 1.3])
+        if rng.random() < 0.6:
+            case["cfg"]["family"] = "simple_nodes"
+        case["out_and_back"] = True
+        case["debug"] = False
+        return case
     if case["cfg"]["family"] != "simple_nodes" and rng.random() < 0.15:
         es = gen.real_edges(case["map"])
         if len(es) >= 2:
@@ -67,6 +78,8 @@ def gen_case(rng, i, tier):
 
 
 def check_case(ctx, case):
+    if case.get("out_and_back"):
+        ctx.count("out_and_back_cases")
     tr = build.trace(case["trace"])
     res = {}
     for on in (False, True):
@@ -116,6 +129,11 @@ def check_case(ctx, case):
             ctx.violation(f"C06:best-probability-lowered:{fam}", case, f"best log-probability {off['best']!r} without, {on['best']!r} with non-emitting states")
     ctx.sample(case)
 
+
+# no clause depends on the map backend: a tenth of the eligible cases (integer labels, no linked edges) runs on SqliteMap
+_bk_gen, _bk_chk = build.backend_dimension(0.12)
+gen_case = _bk_gen(gen_case)
+check_case = _bk_chk(check_case)
 
 TECHNIQUE = "runtime monitoring: differential monitor over sibling executions (non-emitting states off / on, one shared configuration)"
 LEVEL_TEXT = ("{Q} (quick) / {T} (thorough) pairs of real runs; the on-run must not match a shorter prefix, must not be empty alone, and for two "
